@@ -3,6 +3,7 @@
 mod explore;
 mod fam_lifecycle;
 mod fam_mailbox;
+mod fam_outport;
 mod fam_rpc;
 mod fam_timer;
 mod tdrv;
@@ -60,6 +61,7 @@ fn main() {
         fam_lifecycle::dispatch,
         fam_timer::dispatch,
         fam_rpc::dispatch,
+        fam_outport::dispatch,
     ];
     for f in fams {
         if let Some(summary) = f(&cmd, &a) {
